@@ -200,6 +200,24 @@ class ExternalClass(object):
         return "<ExternalClass %s>" % self.name
 
 
+_EXT_EXPORTS = {}
+
+
+def _external_exports(modname, name):
+    """does `from <library module> import *` bind `name`?  (asked of the installed library, not of the analysed package)"""
+    if modname not in _EXT_EXPORTS:
+        try:
+            import importlib
+            mod = importlib.import_module(modname)
+            names = getattr(mod, "__all__", None)
+            if names is None:
+                names = [n for n in dir(mod) if not n.startswith("_")]
+            _EXT_EXPORTS[modname] = set(names)
+        except Exception:
+            _EXT_EXPORTS[modname] = set()
+    return name in _EXT_EXPORTS[modname]
+
+
 class External(object):
     """A name resolved to something outside the analysed package."""
     def __init__(self, name):
@@ -353,6 +371,11 @@ class Program(object):
                 r = self.resolve_name(tm, name, _seen)
                 if r is not None:
                     return r
+            for target in m.star_imports:
+                if target in self.modules or name.startswith("_"):
+                    continue
+                if _external_exports(target, name):
+                    return External("%s.%s" % (target, name))
             return None
         if b.kind in ("func", "class"):
             return b.node
